@@ -58,9 +58,9 @@ class Gen:
                 out.append('`' + w + self.pick('code_inner', ['', ' b', '  two']) + '`')
             elif r < 0.86 and self.inline_level >= 2:
                 title = self.pick('title', ['', ' "ti tle"', " 'single'", ' (paren)'])
-                out.append('[' + w + ' text](' + self.pick('dest', ['/url', '<a b>', 'http://x.y/z?q=1']) + title + ')')
+                out.append('[' + w + ' text](' + self.pick('dest', ['/url', '<a b>', 'http://x.y/z?q=1', '<>', '']) + title + ')')
             elif r < 0.89 and self.inline_level >= 2:
-                out.append('![' + w + '](/img.png)')
+                out.append('![' + w + '](' + self.pick('img_dest', ['/img.png', '/img.png', '<my img.png>', '<>']) + self.pick('img_title', ['', '', ' "ti tle"', ' (paren)']) + ')')
             elif r < 0.92 and self.inline_level >= 2:
                 out.append('<http://auto.link/' + w + '>')
             elif r < 0.95 and self.inline_level >= 2 and self.refs and self.labels:
